@@ -236,7 +236,9 @@ CHECKS = {
         rule=("rapid-generated configurations; non-trivial = publishers actually interleaved on a subscriber (publisher switches > 4 per subscriber) and at least one packet was written through the ring's wrap path (derived from stream offsets); distinct = FNV-64 of the configuration JSON"),
         assumptions=["each subscriber holds exactly one subscription per topic"],
         units=[dict(name="broker-role", test="TestC17Broker", checks=(240, 25000), shards=(4, 14), timeout=(300, 3000)),
-               dict(name="client-role", pkg="p_client", test="TestC17Client", checks=(1200, 150000), shards=(4, 14), timeout=(300, 3000))]),
+               dict(name="client-role", pkg="p_client", test="TestC17Client", checks=(1200, 150000), shards=(4, 14), timeout=(300, 3000)),
+               dict(name="client-inbound-order", pkg="p_client", test="TestC17ClientInbound", checks=(160, 20000), shards=(4, 14), timeout=(300, 3000)),
+               dict(name="client-reconnect-stream", pkg="p_client", test="TestC17ClientReconnect", checks=(60, 6000), shards=(4, 14), timeout=(300, 3000))]),
 
     "C18": dict(
         pkg="p_broker", level="exploration", race=True,
